@@ -149,93 +149,133 @@ def parseU16ListExt (body : Bytes) : Option (List Nat) :=
   | some (l, []) => if l.isEmpty then none else decU16s l
   | _ => none
 
-/-- one `case` of the `switch extension`; `isLast` = `extensions.Empty()` after this extension.
-Every known case ends with the `if !extData.Empty() { return false }` check. -/
-def applyExt (m : Msg) (id : Nat) (body : Bytes) (isLast : Bool) : Option Msg :=
-  if id = xSNI then
-    match readVec16 body with
-    | some (names, []) =>
-      if names.isEmpty then none
-      else (parseSNINames names.length names m.serverName).map fun n => { m with serverName := n }
-    | _ => none
-  else if id = xStatus then
-    match readU8 body with
+/-! the `case`s of the `switch extension` (each ends with the `if !extData.Empty() { return false }` check) -/
+
+def caseSNI (m : Msg) (body : Bytes) : Option Msg :=
+  match readVec16 body with
+  | some (names, []) =>
+    if names.isEmpty then none
+    else (parseSNINames names.length names m.serverName).map fun n => { m with serverName := n }
+  | _ => none
+
+def caseStatus (m : Msg) (body : Bytes) : Option Msg :=
+  match readU8 body with
+  | none => none
+  | some (t, r) =>
+    match readVec16 r with
     | none => none
-    | some (t, r) =>
-      match readVec16 r with
-      | none => none
-      | some (_, r') =>
-        match readVec16 r' with
-        | some (_, []) => some { m with ocspStapling := t == 1 }
-        | _ => none
-  else if id = xCurves then
-    (parseU16ListExt body).map fun xs => { m with supportedCurves := m.supportedCurves ++ xs }
-  else if id = xPoints then
-    match readVec8 body with
-    | some (p, []) => if p.isEmpty then none else some { m with supportedPoints := p }
-    | _ => none
-  else if id = xTicket then
-    some { m with ticketSupported := true, sessionTicket := body }
-  else if id = xSigAlgs then
-    (parseU16ListExt body).map fun xs => { m with sigAlgs := m.sigAlgs ++ xs }
-  else if id = xSigAlgsCert then
-    (parseU16ListExt body).map fun xs => { m with sigAlgsCert := m.sigAlgsCert ++ xs }
-  else if id = xReneg then
-    match readVec8 body with
-    | some (d, []) => some { m with secureRenegotiation := d, secureRenegotiationSupported := true }
-    | _ => none
-  else if id = xEMS then
-    if body.isEmpty then some { m with extendedMasterSecret := true } else none
-  else if id = xALPN then
+    | some (_, r') =>
+      match readVec16 r' with
+      | some (_, []) => some { m with ocspStapling := t == 1 }
+      | _ => none
+
+def caseCurves (m : Msg) (body : Bytes) : Option Msg :=
+  (parseU16ListExt body).map fun xs => { m with supportedCurves := m.supportedCurves ++ xs }
+
+def casePoints (m : Msg) (body : Bytes) : Option Msg :=
+  match readVec8 body with
+  | some (p, []) => if p.isEmpty then none else some { m with supportedPoints := p }
+  | _ => none
+
+def caseTicket (m : Msg) (body : Bytes) : Option Msg :=
+  some { m with ticketSupported := true, sessionTicket := body }
+
+def caseSigAlgs (m : Msg) (body : Bytes) : Option Msg :=
+  (parseU16ListExt body).map fun xs => { m with sigAlgs := m.sigAlgs ++ xs }
+
+def caseSigAlgsCert (m : Msg) (body : Bytes) : Option Msg :=
+  (parseU16ListExt body).map fun xs => { m with sigAlgsCert := m.sigAlgsCert ++ xs }
+
+def caseReneg (m : Msg) (body : Bytes) : Option Msg :=
+  match readVec8 body with
+  | some (d, []) => some { m with secureRenegotiation := d, secureRenegotiationSupported := true }
+  | _ => none
+
+def caseEMS (m : Msg) (body : Bytes) : Option Msg :=
+  if body.isEmpty then some { m with extendedMasterSecret := true } else none
+
+def caseALPN (m : Msg) (body : Bytes) : Option Msg :=
+  match readVec16 body with
+  | some (l, []) =>
+    if l.isEmpty then none
+    else (parseVec8List l.length l).map fun ps => { m with alpnProtocols := m.alpnProtocols ++ ps }
+  | _ => none
+
+def caseSCT (m : Msg) (body : Bytes) : Option Msg :=
+  if body.isEmpty then some { m with scts := true } else none
+
+def caseVersions (m : Msg) (body : Bytes) : Option Msg :=
+  match readVec8 body with
+  | some (l, []) =>
+    if l.isEmpty then none
+    else (decU16s l).map fun vs => { m with supportedVersions := m.supportedVersions ++ vs }
+  | _ => none
+
+def caseCookie (m : Msg) (body : Bytes) : Option Msg :=
+  match readVec16 body with
+  | some (c, []) => if c.isEmpty then none else some { m with cookie := c }
+  | _ => none
+
+def caseKeyShare (m : Msg) (body : Bytes) : Option Msg :=
+  match readVec16 body with
+  | some (l, []) => (parseKeyShares l.length l).map fun ks => { m with keyShares := m.keyShares ++ ks }
+  | _ => none
+
+def caseEarly (m : Msg) (body : Bytes) : Option Msg :=
+  if body.isEmpty then some { m with earlyData := true } else none
+
+def casePskModes (m : Msg) (body : Bytes) : Option Msg :=
+  match readVec8 body with
+  | some (p, []) => some { m with pskModes := p }
+  | _ => none
+
+def caseQuicTP (m : Msg) (body : Bytes) : Option Msg :=
+  some { m with quicTP := some body }
+
+/-- `pre_shared_key` must be the last extension (`isLast` = `extensions.Empty()` after it). -/
+def casePSK (m : Msg) (body : Bytes) (isLast : Bool) : Option Msg :=
+  if !isLast then none
+  else
     match readVec16 body with
-    | some (l, []) =>
-      if l.isEmpty then none
-      else (parseVec8List l.length l).map fun ps => { m with alpnProtocols := m.alpnProtocols ++ ps }
-    | _ => none
-  else if id = xSCT then
-    if body.isEmpty then some { m with scts := true } else none
-  else if id = xVersions then
-    match readVec8 body with
-    | some (l, []) =>
-      if l.isEmpty then none
-      else (decU16s l).map fun vs => { m with supportedVersions := m.supportedVersions ++ vs }
-    | _ => none
-  else if id = xCookie then
-    match readVec16 body with
-    | some (c, []) => if c.isEmpty then none else some { m with cookie := c }
-    | _ => none
-  else if id = xKeyShare then
-    match readVec16 body with
-    | some (l, []) => (parseKeyShares l.length l).map fun ks => { m with keyShares := m.keyShares ++ ks }
-    | _ => none
-  else if id = xEarly then
-    if body.isEmpty then some { m with earlyData := true } else none
-  else if id = xPskModes then
-    match readVec8 body with
-    | some (p, []) => some { m with pskModes := p }
-    | _ => none
-  else if id = xQuicTP then
-    some { m with quicTP := some body }
-  else if id = xPSK then
-    if !isLast then none
-    else
-      match readVec16 body with
-      | none => none
-      | some (ids, r) =>
-        if ids.isEmpty then none
-        else
-          match parsePskIds ids.length ids with
-          | none => none
-          | some pis =>
-            match readVec16 r with
-            | some (bs, []) =>
-              if bs.isEmpty then none
-              else (parseVec8List bs.length bs).map fun bl =>
-                { m with pskIdentities := m.pskIdentities ++ pis, pskBinders := m.pskBinders ++ bl }
-            | _ => none
-  else if id = xECH then
-    some { m with ech := body }
-  else some m   -- `default: continue` — unknown extensions are ignored, whatever their body
+    | none => none
+    | some (ids, r) =>
+      if ids.isEmpty then none
+      else
+        match parsePskIds ids.length ids with
+        | none => none
+        | some pis =>
+          match readVec16 r with
+          | some (bs, []) =>
+            if bs.isEmpty then none
+            else (parseVec8List bs.length bs).map fun bl =>
+              { m with pskIdentities := m.pskIdentities ++ pis, pskBinders := m.pskBinders ++ bl }
+          | _ => none
+
+def caseECH (m : Msg) (body : Bytes) : Option Msg :=
+  some { m with ech := body }
+
+/-- the `switch extension`; `default: continue` ignores unknown extensions whatever their body. -/
+def applyExt (m : Msg) (id : Nat) (body : Bytes) (isLast : Bool) : Option Msg :=
+  if id = xSNI then caseSNI m body
+  else if id = xStatus then caseStatus m body
+  else if id = xCurves then caseCurves m body
+  else if id = xPoints then casePoints m body
+  else if id = xTicket then caseTicket m body
+  else if id = xSigAlgs then caseSigAlgs m body
+  else if id = xSigAlgsCert then caseSigAlgsCert m body
+  else if id = xReneg then caseReneg m body
+  else if id = xEMS then caseEMS m body
+  else if id = xALPN then caseALPN m body
+  else if id = xSCT then caseSCT m body
+  else if id = xVersions then caseVersions m body
+  else if id = xCookie then caseCookie m body
+  else if id = xKeyShare then caseKeyShare m body
+  else if id = xEarly then caseEarly m body
+  else if id = xPskModes then casePskModes m body
+  else if id = xQuicTP then caseQuicTP m body
+  else if id = xPSK then casePSK m body isLast
+  else if id = xECH then caseECH m body
+  else some m
 
 /-- the extension loop after un-framing: records the id, applies the case. -/
 def processExts (m : Msg) : List (Nat × Bytes) → Option Msg
